@@ -602,6 +602,12 @@ WireIdentity ==
 StopDrains ==
     (stopRet = "ok" /\ Faults \subseteq Benign) => outClosed /\ outs = Expected(SubSeq(Feed, 1, pump.i)) /\ reader.pc = "done"
 
+\* the byte pipe from the peer is a queue of its own: what the peer WROTE before it closed / exited (fromAgent.q at the
+\* moment fromAgent.closed is set) and what the server has READ are different things.  The reader may see the end of the
+\* stream only after the backlog: it never ends cleanly with responses still unread in the pipe (a UDFProcess whose
+\* child has exited with its answers unread must still deliver them: nothing - e.g. reaping the process, which closes
+\* the parent's end of its stdout - may discard the backlog)
+BacklogSurvivesClose == (reader.pc = "done" /\ err = NIL) => fromAgent.q = <<>>
 \* Out() is closed only after the last message
 ClosedIsFinal == outClosed => reader.pc = "done"
 
